@@ -452,21 +452,20 @@ fn gen_gateway(rng: &mut Rng, o: &mut Out) {
     let r = std::panic::catch_unwind(AssertUnwindSafe(|| gw::inbound(&NullDispatcher, &pool, &d, from_ip, local)));
     let dl = match from_ip { IpAddr::V4(_) => 4, IpAddr::V6(_) => 16 };
     let sl = match local { ScionHostAddr::V4(_) => 4, ScionHostAddr::V6(_) => 16, _ => 4 };
-    let (oc, out, code, ptr) = match r {
-        Ok(gw::InboundOutcome::Dispatched) => { o.sm.count("gateway.dispatched"); return; }
-        Ok(gw::InboundOutcome::Reply { error, bytes, .. }) => {
-            let (code, ptr) = match error {
-                gw::CheckError::MalformedPacket => (u8::from(ScmpParameterProblemCode::InvalidCommonHeader), 0usize),
-                gw::CheckError::InvalidSourceAddress => (u8::from(ScmpParameterProblemCode::InvalidSourceAddress), 28 + p.dst.raw.len()),
-                gw::CheckError::InvalidPathType => (u8::from(ScmpParameterProblemCode::UnknownPathType), 8),
-            };
-            o.sm.count(&format!("gateway.{error:?}"));
-            (0, bytes, code, ptr)
-        }
-        Ok(gw::InboundOutcome::ReplyEncodeError { .. }) => (1, vec![], 0, 0),
-        Err(_) => (99, vec![], 0, 0),
+    // (PP code, pointer, check kind: 0 malformed, 1 source address, 2 path type) the reply must carry
+    let expect = |error: gw::CheckError| match error {
+        gw::CheckError::MalformedPacket => (u8::from(ScmpParameterProblemCode::InvalidCommonHeader), 0usize, 0),
+        gw::CheckError::InvalidSourceAddress => (u8::from(ScmpParameterProblemCode::InvalidSourceAddress), 28 + p.dst.raw.len(), 1),
+        gw::CheckError::InvalidPathType => (u8::from(ScmpParameterProblemCode::UnknownPathType), 8, 2),
     };
-    o.push("gateway", format!("CEnc 2 4 {code} {ptr} 0 0 {} {dl} {sl} 0 {oc} {}", coq_rle(&d), coq_rle(&out)),
+    let (oc, out, (code, ptr, chk)) = match r {
+        Ok(gw::InboundOutcome::Dispatched) => { o.sm.count("gateway.dispatched"); return; }
+        Ok(gw::InboundOutcome::Reply { error, bytes, .. }) => { o.sm.count(&format!("gateway.{error:?}")); (0, bytes, expect(error)) }
+        Ok(gw::InboundOutcome::Suppressed { error }) => { o.sm.count(&format!("gateway.suppressed.{error:?}")); (2, vec![], expect(error)) }
+        Ok(gw::InboundOutcome::ReplyEncodeError { error, .. }) => (1, vec![], expect(error)),
+        Err(_) => (99, vec![], (0, 0, 0)),
+    };
+    o.push("gateway", format!("CEnc 2 4 {code} {ptr} {chk} 0 {} {dl} {sl} 0 {oc} {}", coq_rle(&d), coq_rle(&out)),
            format!("gateway inbound {}B {kind} next={} -> oc={oc} reply={}B", d.len(), p.next, out.len()), true);
 }
 
@@ -565,6 +564,46 @@ fn gen_sim_on(rng: &mut Rng, o: &mut Out, vb: Vec<u8>, kind: String) {
            format!("pocketscion on {kind} {}B, error ty={} -> oc={oc} reply={}B", vb.len(), f[0], out.len()), true);
 }
 
+/// pocketscion's router answering echo / traceroute requests (handle_scmp)
+fn gen_sim_echo(rng: &mut Rng, o: &mut Out) {
+    let mut kind = String::new();
+    let b = if rng.chance(2, 3) {
+        // a clean echo / traceroute request (SCION hosts, mostly reversible path)
+        let mut p = base_pkt(rng, false);
+        let ty = *rng.pick(&[128u8, 128, 130]);
+        let mut rest: Vec<u8> = vec![(rng.below(256)) as u8, rng.below(256) as u8, rng.below(256) as u8, rng.below(256) as u8];
+        if ty == 130 { rest.extend_from_slice(&[0; 16]); } else { let n_ = rng.below(300) as usize; rest.extend(rnd_bytes(rng, n_)); }
+        p.payload = scmp_msg(&p, ty, 0, &rest, true);
+        kind = format!("clean-ty{ty}");
+        p.bytes()
+    } else { rnd_received(rng, &mut kind) };
+    let Ok((v, _)) = ScionRawPacketView::try_from_slice(&b) else { o.sm.count("simecho.skipped-undecodable"); return; };
+    let vb = v.as_slice().to_vec();
+    let Ok(mut boxed) = ScionRawPacketView::try_from_boxed(vb.clone().into_boxed_slice()) else { o.sm.count("simecho.skipped-unboxable"); return; };
+    let path = path_of(&boxed);
+    let router_ip: IpAddr = if rng.chance(3, 4) { IpAddr::V4(Ipv4Addr::new(10, 0, 0, 254)) } else { IpAddr::V6(Ipv6Addr::new(0xfd00, 0, 0, 0, 0, 0, 0, 0xfe)) };
+    let ifid: u16 = *rng.pick(&[1u16, 7, 65535]);
+    let router = ScionRouter::new(vec![ifid], SocketAddr::new(router_ip, 30042));
+    let receivers = NetworkReceiverRegistry::new();
+    let external = ExternalAsRegistry::new();
+    let sim = LocalNetworkSimulation::new(IsdAsn(IA_A), ifid, &receivers, &external, &router);
+    let action = if rng.chance(1, 2) { LocalAsRoutingAction::IngressSCMPHandleRequest { interface_id: ifid } }
+                 else { LocalAsRoutingAction::EgressSCMPHandleRequest { interface_id: ifid } };
+    let r = std::panic::catch_unwind(AssertUnwindSafe(|| sim.handle_local_routing_action(action, &mut boxed)));
+    let (oc, out) = match r {
+        Err(_) => (99, vec![]),
+        Ok(Err(_)) => (2, vec![]),
+        Ok(Ok(None)) => (0, vec![]),
+        Ok(Ok(Some(reply))) => match std::panic::catch_unwind(AssertUnwindSafe(|| reply.try_encode_to_vec())) {
+            Ok(Ok(b)) => (1, b), Ok(Err(_)) => (3, vec![]), Err(_) => (99, vec![]),
+        },
+    };
+    let (rnib, rraw): (u8, Vec<u8>) = match router_ip { IpAddr::V4(a) => (0, a.octets().to_vec()), IpAddr::V6(a) => (3, a.octets().to_vec()) };
+    o.sm.count(&format!("simecho.oc{oc}"));
+    o.push("simecho", format!("CSimEcho {} {} {} {rnib} {} {ifid} {oc} {}", coq_rle(&vb), coq_dppath(&path), IA_A, coq_bytes(&rraw), coq_rle(&out)),
+           format!("pocketscion handle_scmp on {kind} {}B -> oc={oc} reply={}B", vb.len(), out.len()), true);
+}
+
 fn emsg_fields(m: &ScmpErrorMessage) -> ([u64; 5], Vec<u8>) {
     match m {
         ScmpErrorMessage::DestinationUnreachable(x) => ([1, u8::from(x.code) as u64, 0, 0, 0], x.get_offending_packet().to_vec()),
@@ -634,7 +673,7 @@ fn main() {
     let n: usize = arg("--n").and_then(|s| s.parse().ok()).unwrap_or(400);
     let mut rng = Rng::new(seed_from_env());
     let pre = "From Sci Require Import Scmp.Cases. Open Scope N_scope.";
-    let mut o = Out { sh: Shards::new(&out, pre, "scase", "verdicts", 24), sm: Summary::default(),
+    let mut o = Out { sh: Shards::new(&out, pre, "scase", "verdicts", 40), sm: Summary::default(),
                       seen: Default::default(), distinct: 0 };
     for i in 0..n {
         match i % 16 {
@@ -642,7 +681,8 @@ fn main() {
             3 | 4 | 5 | 6 => gen_encode(&mut rng, &mut o),
             7 => gen_gateway(&mut rng, &mut o),
             8 | 9 | 10 | 11 => gen_handler(&mut rng, &mut o),
-            12 | 13 => gen_sim(&mut rng, &mut o),
+            12 => gen_sim(&mut rng, &mut o),
+            13 => if i % 32 == 13 { gen_sim(&mut rng, &mut o) } else { gen_sim_echo(&mut rng, &mut o) },
             _ => gen_stream(&mut rng, &mut o),
         }
     }
